@@ -127,13 +127,15 @@ PROPS = {
                  "Schedules: all interleavings of 2 and 3 bind requests for one server feature arriving on different connections are "
                  "enumerated over the yield point between the single-binding check and the insertion; plus free-running contention "
                  "rounds. Non-trivial: a client holds >=2 bindings or two clients contend for one feature; schedule: >=2 requests inside "
-                 "the window together. Distinct by (operation sequence with outcomes, final registry) / schedule choice vector."),
+                 "the window together. Distinct by (operation sequence with outcomes, final registry) / schedule choice vector."
+                 "Free-running mix (shared with C03): three peers, each with a bind or a binding delete for its own server feature at the same moment; every request takes effect, the registry holds exactly the granted and not deleted bindings, and a following write of each peer is served or refused accordingly."),
         "assumptions": ["special role accepted on both sides; Generic types not generated",
                         "schedule enumeration is exhaustive only over the instrumented window (build tag verif); elsewhere stress"],
         "runs": [
             {"name": "bindings", "run": "TestBindings", "kind": "rapid", "checks": {Q: 8000, T: 320000}, "shards": {Q: 4, T: 16}, "steps": {Q: 20, T: 40}},
             {"name": "interleavings", "run": "TestBindInterleavings", "kind": "plain"},
             {"name": "stress", "run": "TestBindStress", "kind": "plain", "shards": {Q: 2, T: 16}, "env": {"VERIF_ROUNDS": {Q: 300, T: 12000}}},
+            {"name": "mix", "run": "TestRegistryMixStress", "kind": "plain", "shards": {Q: 2, T: 16}, "env": {"VERIF_ROUNDS": {Q: 400, T: 12000}}},
         ],
     },
     "C03": {
@@ -146,11 +148,13 @@ PROPS = {
                  "=> data unchanged, no notify on any connection, no data-change event, exactly one error result; authorised => success "
                  "with data = fold of the write, one notify per subscription, one event, result iff ack - or an error with no effect at all "
                  "(never for a full write). Non-trivial: a peer has both an accepted and a rejected write in the history. Distinct by "
-                 "operation sequence with outcomes."),
+                 "operation sequence with outcomes."
+                 "Free-running mix (shared with C09): three peers, each with a bind or a binding delete for its own server feature at the same moment; every request takes effect, the registry holds exactly the granted and not deleted bindings, and a following write of each peer is served or refused accordingly."),
         "assumptions": ["the registry's own correctness is C09/C10's subject: the gate is judged relative to HasLocalFeatureRemoteBinding (cross-checked with Bindings(peer))",
                         "no message is injected on a removed connection (cannot happen in SHIP); disappearance of the device is tested by reconnecting the same SKI"],
         "runs": [
             {"name": "gate", "run": "TestWriteGate", "kind": "rapid", "checks": {Q: 8000, T: 400000}, "shards": {Q: 4, T: 16}, "steps": {Q: 20, T: 40}},
+            {"name": "mix", "run": "TestRegistryMixStress", "kind": "plain", "shards": {Q: 2, T: 16}, "env": {"VERIF_ROUNDS": {Q: 400, T: 12000}}},
         ],
     },
     "C10": {
